@@ -32,10 +32,19 @@ condition is needed) and every source without `<`:
                                Consequences for the model with its own fuel: `C02_convert_never_err`,
                                `C02_convert_ok_or_stack_fuel`.
 
-Only property statements live here; proofs in `MdVerif/Lemmas/C02Big.lean` and `MdVerif/Lemmas/C02Big{Str,Pat,Run,Tree}.lean`
-(the last four mirror `Lemmas/AmpFull*.lean` of C05 for the stronger invariant).  Core Lean only.
+5. `C02_convertXBig_total`, `C02_convertXBig_refines` — the same for the EXTENSION model: `convertXBig` (`convertX` with
+                               the stack loop of `runX` on `bigRunFuel`) never answers `oof`, for every flag set whose
+                               inline pattern table is the core one (tables, admonition, def_list, abbr, sane_lists,
+                               attr_list, toc on or off; footnotes, wikilinks, nl2br, fenced_code off), and agrees with
+                               `convertX` wherever that answers.  Ingredient: the extended block parser's tree has no
+                               STX/ETX (`C02_blockStageX_noctl`).
+
+Only property statements live here; proofs in `MdVerif/Lemmas/C02Big.lean`, `MdVerif/Lemmas/C02Big{Str,Pat,Run,Tree}.lean`
+(these four mirror `Lemmas/AmpFull*.lean` of C05 for the stronger invariant) and `MdVerif/Lemmas/C02BigX.lean`.
+Core Lean only.
 -/
 import MdVerif.Lemmas.C02BigTree
+import MdVerif.Lemmas.C02BigX
 
 namespace MdVerif.C02Big
 open Py Block Inline InlineLocal NoCtl Vocab2 MdVerif.C08 MdVerif.C08Src
@@ -201,6 +210,56 @@ theorem C02_convert_ok_or_stack_fuel (pc : Pipeline.Cfg) (src : Str) (hlt : '<' 
   · exact Or.inl ⟨out, by rw [h, ho], ho⟩
   · exact Or.inr h
 
+
+/-! ### 5. the extension pipeline on the sufficient fuel -/
+
+section Ext
+open PipelineX C02BigX
+
+/-- **The extended block parser invents no STX/ETX**: without fenced_code and footnotes (every combination of tables,
+    admonition, def_list, abbr, sane_lists; every tab length; every source) the tree that the stages before the
+    inline processor hand over has no STX/ETX in any tag, attribute, text or tail, and the HTML stash is empty.
+    (`C10_block_tree_noctl` for the extension model.) -/
+theorem C02_blockStageX_noctl {x : Exts} {cfg : Pipeline.Cfg} {src : Str} (hf : x.fencedCode = false)
+    (hfn : x.footnotes = false) {root : Node} {log : Block.Refs} {stash : List Str}
+    (h : blockStageX x cfg src = .ok (root, log, stash)) : TreeNoCtl root ∧ stash = [] :=
+  blockStageX_noctl hf hfn h
+
+/-- **C02, termination of the extension pipeline on the sufficient fuel.**  For every flag set whose inline pattern
+    table is the core one — tables, admonition, def_list, abbr, sane_lists, attr_list, toc on or off; footnotes,
+    wikilinks, nl2br off — without fenced_code, every configuration with `0 < tab_length` when admonition is on, and
+    EVERY source: `convertXBig` never answers `oof`.  The preprocessors, the extended block parser, the two loops of
+    `InlineProcessor.run`, `TocTreeprocessor` (which runs the postprocessors on heading names) and the raw-HTML
+    restore all end within their fuels. -/
+theorem C02_convertXBig_total (x : Exts) (cfg : Pipeline.Cfg) (src : Str)
+    (hx : x.footnotes = false ∧ x.wikilinks = false ∧ x.nl2br = false) (hf : x.fencedCode = false)
+    (htab : x.admonition = true → 0 < cfg.tab) : convertXBig x cfg src ≠ .oof :=
+  convertXBig_ne_oof src hx hf htab
+
+/-- **Wherever `convertX` answers anything but `oof`, `convertXBig` gives the same answer** (`ok`, `err`, `ood`; core
+    pattern table; every source, fenced_code on or off): the correspondence runs on `convertX` validate `convertXBig`. -/
+theorem C02_convertXBig_refines (x : Exts) (cfg : Pipeline.Cfg) (src : Str)
+    (hx : x.footnotes = false ∧ x.wikilinks = false ∧ x.nl2br = false) (h : convertX x cfg src ≠ .oof) :
+    convertXBig x cfg src = convertX x cfg src :=
+  convertXBig_of_convertX_ne_oof hx h
+
+/-- the flag set with everything on that the theorems allow, and a source that uses all of it -/
+def xAll : Exts :=
+  { tables := true, admonition := true, defList := true, abbr := true, saneLists := true, attrList := true, toc := true }
+
+def srcX : Str :=
+  ("# T {: #i }\n\n!!! note\n    a *b*\n\nterm\n:   d [l](u \"t\") &amp;\n\n|h|\n|-|\n|\\*c|\n\n" ++
+   "*[HTML]: H T\n\n3. HTML\n").toList
+
+example : (xAll.footnotes = false ∧ xAll.wikilinks = false ∧ xAll.nl2br = false) ∧ xAll.fencedCode = false ∧
+    (xAll.admonition = true → 0 < ({} : Pipeline.Cfg).tab) := ⟨⟨rfl, rfl, rfl⟩, rfl, fun _ => by decide⟩
+
+/-- the model's answer (337 characters, the output of the implementation) is also `convertXBig`'s -/
+example : (match convertXBig xAll {} srcX, convertX xAll {} srcX with
+    | .ok a, .ok b => decide (a = b) && decide (a.length = 337)
+    | _, _ => false) = true := by decide +kernel
+
+end Ext
 
 /-! ### non-vacuity -/
 
